@@ -26,6 +26,9 @@ def run(ctx):
     hs += C.c12_idseq_histories(ctx.rng, nmax=ctx.scale(3, 4))
     # a batch reply sharing its array with a notification for a full (lagging) subscription
     hs += C.c12_mixed_array_histories(ctx.rng, nmax=ctx.scale(3, 4))
+    # serde's SEQUENCE forms: calls / batch entries answered with error objects written `[code,message,data]`, notifications
+    # written `["2.0",method,params]` / params `[sid,value]` next to them
+    hs += C.seqform_histories(ctx.rng, reps=ctx.scale(3, 40))
     C.run_histories(ctx, hs, ["c03", "c12"])
     from props import httpbatch_common as HB
     HB.run_single(ctx)
